@@ -21,9 +21,9 @@ def handle (α : Type) [Arith α] [Wire α] : List Sexp → Sexp
 
 /-- exact oracle: verdict and value of one entry point against the certified exact solver. -/
 def oracle : List Sexp → Sexp
-  | [.atom "verdict", lm, .atom solver, res, .str msg] =>
+  | [.atom "verdict", lm, .atom solver, res, .str msg, .atom raw] =>
     match (LinModel.dec lm : Option (LinModel (Ext Rat))), (ImplRes.dec res : Option (ImplRes (Ext Rat))) with
-    | some lm, some r => SolveOracle.checkVerdict lm solver r msg
+    | some lm, some r => SolveOracle.checkVerdict lm solver r msg raw
     | _, _ => app "err" [.atom "decode"]
   | _ => app "err" [.atom "bad-request"]
 end Rooc.Drv.C05
